@@ -26,8 +26,18 @@ structure EcdsaKey where
   sign : Bytes → Out (Int × Int)
   verify : Bytes → Nat → Nat → Bool
 
-/-- `ecdsaKeySigner.SignDigest` / `ecdsaCryptoSigner.SignDigest` -/
-def ecdsaSignDigest (k : EcdsaKey) (digest : Bytes) : Out Bytes :=
+/-- `checkECDSADigest(alg, digest) == nil`.  `hs` is what the ALGORITHM says about its hash:
+    `some n` — `alg.hashFunc()` is available and `h.Size() = n`; `none` — not available (Go:
+    `h.Available() && len(digest) != h.Size()` is then false, no check). -/
+def checkECDSADigest (hs : Option Nat) (digest : Bytes) : Bool :=
+  match hs with
+  | some n => digest.length == n
+  | none => true
+
+/-- `ecdsaKeySigner.SignDigest` / `ecdsaCryptoSigner.SignDigest`: the digest must be of the
+    algorithm's hash, checked before the key is touched -/
+def ecdsaSignDigest (hs : Option Nat) (k : EcdsaKey) (digest : Bytes) : Out Bytes :=
+  if checkECDSADigest hs digest = false then .err .other else
   match k.sign digest with
   | .ok (r, s) =>
     (match encodeECDSASignature k.n r s with
@@ -38,29 +48,33 @@ def ecdsaSignDigest (k : EcdsaKey) (digest : Bytes) : Out Bytes :=
   | .unmodelled => .unmodelled
 
 /-- `ecdsaKeySigner.Sign` / `ecdsaCryptoSigner.Sign` -/
-def ecdsaSign (H : HashFn) (k : EcdsaKey) (content : Bytes) : Out Bytes :=
+def ecdsaSign (H : HashFn) (hs : Option Nat) (k : EcdsaKey) (content : Bytes) : Out Bytes :=
   match H content with
-  | .ok digest => ecdsaSignDigest k digest
+  | .ok digest => ecdsaSignDigest hs k digest
   | .err e => .err e
   | .panic => .panic
   | .unmodelled => .unmodelled
 
-/-- `ecdsaVerifier.VerifyDigest` -/
-def ecdsaVerifyDigest (k : EcdsaKey) (digest sig : Bytes) : Out Unit :=
+/-- `ecdsaVerifier.VerifyDigest`: a digest that is not of the algorithm's hash is
+    `ErrVerification` before the signature is decoded -/
+def ecdsaVerifyDigest (hs : Option Nat) (k : EcdsaKey) (digest sig : Bytes) : Out Unit :=
+  if checkECDSADigest hs digest = false then .err .verification else
   match decodeECDSASignature k.n sig with
   | none => .err .verification
   | some (r, s) => if k.verify digest r s then .ok () else .err .verification
 
 /-- `ecdsaVerifier.Verify` -/
-def ecdsaVerify (H : HashFn) (k : EcdsaKey) (content sig : Bytes) : Out Unit :=
+def ecdsaVerify (H : HashFn) (hs : Option Nat) (k : EcdsaKey) (content sig : Bytes) : Out Unit :=
   match H content with
-  | .ok digest => ecdsaVerifyDigest k digest sig
+  | .ok digest => ecdsaVerifyDigest hs k digest sig
   | .err e => .err e
   | .panic => .panic
   | .unmodelled => .unmodelled
 
-def ecdsaSigner (alg : Int) (H : HashFn) (k : EcdsaKey) : Signer := { alg := alg, sign := ecdsaSign H k }
-def ecdsaVerifier (alg : Int) (H : HashFn) (k : EcdsaKey) : Verifier := { alg := alg, verify := ecdsaVerify H k }
+def ecdsaSigner (alg : Int) (H : HashFn) (hs : Option Nat) (k : EcdsaKey) : Signer :=
+  { alg := alg, sign := ecdsaSign H hs k }
+def ecdsaVerifier (alg : Int) (H : HashFn) (hs : Option Nat) (k : EcdsaKey) : Verifier :=
+  { alg := alg, verify := ecdsaVerify H hs k }
 
 /-- an RSA key: `sign` is `key.Sign(rand, digest, &rsa.PSSOptions{SaltLength: hash size, Hash: h})`
     (whatever a `crypto.Signer` does), `verify` is `rsa.VerifyPSS(...) == nil` -/
